@@ -228,6 +228,8 @@ def check(ctx):
         # everything), wrong if it is a negative count
         import ast as _ast
         d = fa.defaults().get("n")
+        if isinstance(d, (_ast.Name, _ast.Attribute)):
+            d = fa.module.constants.get(_ast.unparse(d).split(".")[-1], d)
         dv = d.value if isinstance(d, _ast.Constant) else (
             -d.operand.value if isinstance(d, _ast.UnaryOp) and isinstance(
                 d.op, _ast.USub) and isinstance(d.operand, _ast.Constant)
@@ -638,6 +640,13 @@ def _sentinel_agreement(ctx, prog, fa, sentinel: T):
         dv = ast.literal_eval(dflt) if dflt is not None else "<none>"
     except Exception:
         dv = "<expr>"
+        # a named module constant (ALIGN_ALL_POSES = -1) as the default
+        if isinstance(dflt, (ast.Name, ast.Attribute)):
+            cn = fa.module.constants.get(ast.unparse(dflt).split(".")[-1])
+            try:
+                dv = ast.literal_eval(cn) if cn is not None else dv
+            except Exception:
+                pass
     ctx.ob("C04.9", fa, dv == S and type(dv) is type(S),
            f"align(): the default of `n` is its own 'all poses' marker "
            f"({S!r})" if dv == S else
